@@ -150,7 +150,7 @@ func C06(c *ev.Ctx) {
 	// repeated / regrouped / GOMAXPROCS
 	oldProcs := runtime.GOMAXPROCS(0)
 	defer runtime.GOMAXPROCS(oldProcs)
-	nruns := c.Pick(40, 400)
+	nruns := c.Pick(40, 1500)
 	for i := 0; i < nruns; i++ {
 		k := 2 + rr.IntN(len(names)-1)
 		perm := rr.Perm(len(names))[:k]
